@@ -83,16 +83,13 @@ theorem c17_unacceptable_noop_counterexample_parked :
     heapA (Sys.run {} (handshakeOps ++ [.inject .A (forge .A 16 105001 1001 65535 [7, 8, 9])]))
       = some [forge .A 16 105001 1001 65535 [7, 8, 9]] := by decide
 
-/-- did the last op delete side A's TCB? -/
-def deletedA (r : Except String (Sys × List Res)) : Bool :=
-  match r with
-  | .ok (s, rs) => s.a.tcb.isNone && (match rs.getLast? with | some (.arrived .Close) => true | _ => false)
-  | .error _ => false
+/-- the state of side A after the ops -/
+def stateA (r : Except String (Sys × List Res)) : Option State := (tcbA r).map (·.state)
 
-/-- F-C17-5: CLOSING skips the sequence check: an RST with a sequence number 2^31 away from
-    `RCV.NXT` deletes the TCB -/
-theorem c17_unacceptable_noop_counterexample_closing :
-    deletedA (Sys.run {} (handshakeOps ++ [.emit .A, .deliver .B 2, .close .A, .close .B, .emit .B,
-      .deliver .A 3, .inject .A (forge .A 4 2147488650 0 0 [])])) = true := by decide
+/-- F-C17-5 (fixed): CLOSING used to skip the sequence check, so an RST with a sequence number
+    2^31 away from `RCV.NXT` deleted the TCB; now the connection stays in CLOSING -/
+theorem c17_regression_closing :
+    stateA (Sys.run {} (handshakeOps ++ [.emit .A, .deliver .B 2, .close .A, .close .B, .emit .B,
+      .deliver .A 3, .inject .A (forge .A 4 2147488650 0 0 [])])) = some .Closing := by decide
 
 end Elvis.Tcp
